@@ -28,4 +28,18 @@ theorem diskToMemE_memToDiskE : ∀ es : List (Bytes × StoredValue), diskToMemE
   | (k, v) :: es => by simp [memToDiskE, diskToMemE, diskToMem_memToDisk v, diskToMemE_memToDiskE es]
 end
 
+/-- what `serialize_doc` writes for the stored (field, value) pairs of an in-memory document -/
+def docToDisk (d : List (BitVec 32 × StoredValue)) : StoredDoc := d.map fun fv => (fv.1, memToDisk fv.2)
+
+/-- what the deserializer hands back to `CompactDoc` -/
+def docToMem (d : StoredDoc) : List (BitVec 32 × StoredValue) := d.map fun fv => (fv.1, diskToMem fv.2)
+
+theorem docToMem_docToDisk (d : List (BitVec 32 × StoredValue)) : docToMem (docToDisk d) = d := by
+  unfold docToMem docToDisk
+  rw [List.map_map]
+  conv => rhs; rw [← List.map_id d]
+  apply List.map_congr_left
+  intro fv _
+  simp [diskToMem_memToDisk]
+
 end TantivyModel.Store
